@@ -224,6 +224,7 @@ func (s *connectionWorker) serve(ctx context.Context, session *sessions.Session)
 }
 
 func (s *manager) shutdownSession(ctx context.Context, session *sessions.Session) {
+	defer session.Close()
 	s.local.Delete(session.ID())
 	topics := session.GetTopics()
 	for idx := range topics {
